@@ -268,7 +268,7 @@ def _plan(tier):
         plan.append(("reference", dict(n=n, nsteps=1, apply_constraints=True, reassign=True), ("done",)))
         if n == 1:
             plan.append(("reference", dict(n=n, nsteps=2, apply_constraints=False, reassign=True), ("done",)))
-        for ac in (True, False):
+        for ac in ((True, False) if n == 1 else (False,)):  # two atoms with the constraint branch: beyond z3 within budget
             plan.append(("reversible", dict(n=n, nsteps=1, apply_constraints=ac), ("done",)))
         if tier != "quick" and n == 1:
             plan.append(("reversible", dict(n=n, nsteps=2, apply_constraints=False), ("done",)))
